@@ -419,3 +419,62 @@ func (g *Gen) encodingGrid(share float64, f func(x d128.Decimal)) {
 		f(mk(g.r.Intn(2) == 0, c, e))
 	})
 }
+
+// ---- literals at the ends of the range: (number of written digits) x (magnitude) x (leading pattern) x (written form) ----
+func (g *Gen) edgeLiteralGrid(share float64) {
+	lens := []int{1, 2, 17, 19, 20, 33, 34, 35, 36, 37, 38, 39, 40, 41, 50, 77}
+	adjs := []int{-6179, -6178, -6177, -6176, -6175, -6174, -6144, -6143, -6142, 6143, 6144, 6145}
+	const nPat, nForm = 5, 3
+	g.gridRun(len(lens)*len(adjs)*nPat*nForm, share, func(i int) {
+		n := lens[i%len(lens)]
+		i /= len(lens)
+		adj := adjs[i%len(adjs)]
+		i /= len(adjs)
+		pat, form := i%nPat, i/nPat
+		var ds string
+		switch pat {
+		case 0:
+			ds = "1" + g.digitsStr(n-1)
+		case 1:
+			ds = "4" + strings.Repeat("9", n-1)
+		case 2:
+			ds = "5" + strings.Repeat("0", n-1)
+		case 3:
+			ds = "5" + strings.Repeat("0", n-1)
+			if n > 1 {
+				ds = ds[:n-1] + "1"
+			}
+		default:
+			ds = strings.Repeat("9", n)
+		}
+		// value = d.ddd * 10^adj = ds * 10^(adj - n + 1)
+		var s string
+		switch form {
+		case 0:
+			s = ds + "e" + big.NewInt(int64(adj-n+1)).String()
+		case 1:
+			s = ds[:1] + "." + ds[1:] + "e" + big.NewInt(int64(adj)).String()
+			if n == 1 {
+				s = ds + "e" + big.NewInt(int64(adj)).String()
+			}
+		default:
+			if adj < 0 {
+				s = "0." + strings.Repeat("0", -adj-1) + ds
+			} else {
+				s = ds + strings.Repeat("0", adj-n+1)
+				if adj-n+1 < 0 {
+					s = ds + "e" + big.NewInt(int64(adj-n+1)).String()
+				}
+			}
+		}
+		if g.r.Intn(2) == 0 {
+			s = "-" + s
+		}
+		g.setMode(g.r.Intn(6))
+		g.parse("Parse", s)
+		if g.r.Intn(4) == 0 {
+			g.parse("UnmarshalText", s)
+		}
+		g.setMode(0)
+	})
+}
